@@ -45,7 +45,22 @@ KEYS = {
     "spread": lambda c: max(c) - min(c),
     "distinct": lambda c: len(set(c)),
     "maxlen": lambda c: (max(c), len(c)),
+    # key objects that implement only `<` (all that sorting, heapq and the library's Comparable protocol ask for)
+    "ltonly": lambda c: _LtOnly(sum(c)),
 }
+
+
+class _LtOnly:
+    __slots__ = ("v",)
+
+    def __init__(self, v):
+        self.v = v
+
+    def __lt__(self, other):
+        return self.v < other.v
+
+    def __repr__(self):
+        return f"K({self.v})"
 # 'lex': appending an element to c can only keep or raise the descending-sorted tuple in lexicographic order? no:
 # (3,) -> (3,1) is greater (longer with equal prefix); (1,) -> (3,1) greater. Monotone: yes.
 
@@ -72,7 +87,9 @@ def check_sorted(vec, keyname, yield_key):
     # elements are (score, index) pairs so that index order is visible; the key looks at the scores only
     elems = [(s, i) for i, s in enumerate(vec)]
     kf = lambda comb: key(tuple(e[0] for e in comb))
-    got = outcome(lambda: list(sorted_combinations(elems, kf, yield_key=yield_key)))
+    # the flag is also given positionally (third parameter), as a caller of the documented signature may
+    got = outcome(lambda: list(sorted_combinations(elems, kf, yield_key) if len(vec) % 2 else
+                               sorted_combinations(elems, kf, yield_key=yield_key)))
     if got[0] != "ok":
         return "operation-raised", f"sorted_combinations({vec}, key={keyname}) raised {got[1]}"
     out = got[1]
@@ -90,9 +107,9 @@ def check_sorted(vec, keyname, yield_key):
         if not isinstance(c, tuple) or [e[1] for e in c] != sorted(e[1] for e in c):
             return "index-order", f"combination {c} is not an index-ordered tuple"
     ks = [kf(c) for c in combs]
-    if any(a > b for a, b in zip(ks, ks[1:])):
+    if any(b < a for a, b in zip(ks, ks[1:])):
         return "key-order", f"sorted_combinations({vec}, key={keyname}) keys not non-decreasing: {ks[:20]}"
-    if yield_key and any(o[1] != kf(o[0]) for o in out):
+    if yield_key and any((o[1] < kf(o[0])) or (kf(o[0]) < o[1]) for o in out):
         return "reported-key", f"sorted_combinations({vec}, key={keyname}, yield_key) reports a key != key(comb)"
     return None
 
@@ -114,7 +131,7 @@ def check_sorted_raw(vec, keyname):
         return "completeness", (f"sorted_combinations(elements={vec} (equal values), key={keyname}) yielded {len(got[1])} "
                                 f"combinations {got[1][:6]}..., expected {sum(want.values())} (each index combination once)")
     ks = [key(c) for c in got[1]]
-    if any(a > b for a, b in zip(ks, ks[1:])):
+    if any(b < a for a, b in zip(ks, ks[1:])):
         return "key-order", f"sorted_combinations(elements={vec}, key={keyname}) keys not non-decreasing"
     return None
 
